@@ -299,6 +299,24 @@ func ruleTAIL(c *Ctx) {
 		return true
 	})
 	c.check(pushAfter, "TAIL.2/push-after-test", arm, "a frame is pushed only after the tail-call test failed", "a frame is pushed before the tail-call test")
+	// the frame limit must not guard the reuse path (a reused frame needs no new frame)
+	limited := false
+	var tstack []ast.Node
+	inspectWithStack(arm, func(n ast.Node, st []ast.Node) bool {
+		if n == ast.Node(tailIf) {
+			tstack = append([]ast.Node{}, st...)
+		}
+		return true
+	})
+	for _, g := range precedingGuards(tstack) {
+		if strings.Contains(w.Src(g.Cond), "MaxFrames") || containsNode(g.Body, func(m ast.Node) bool {
+			id, ok := m.(*ast.Ident)
+			return ok && id.Name == "ErrStackOverflow"
+		}) {
+			limited = true
+		}
+	}
+	c.check(!limited, "TAIL.2/reuse-not-frame-limited", tailIf, "the frame-reuse path is not subject to the frame limit", "the frame-count check dominates the tail-call test: a self tail call entered on the last available frame fails with stack overflow although it needs no new frame")
 
 	// TAIL.3: the compiler emits RET directly after the returned expression
 	comp := w.FuncDecl(p, "Compiler.Compile")
